@@ -111,6 +111,8 @@ ASSUMPTIONS = [
     "hosts-file operations succeed (file-system faults belong to C14)",
     "the helper is not SIGKILLed; finally blocks run for every Python exception",
     "pf: semantics taken from the pfctl manual pages, never executed here",
+    "pf on Darwin: a pf that is enabled before the session is held by a `pfctl -E` reference of another tool; the effect of "
+    "releasing the last reference on a pf that was switched on with a plain `-e` is not specified there and not judged",
 ]
 TRUSTED_EXTRA = ["PyEnv in harness/props/c04.py (cross-checked command by command against Env/FwState.lean)"]
 
@@ -2256,7 +2258,11 @@ def pf_cases(ctx):
         # many redirected connections, each answered through /dev/pf, with a budget of descriptors the helper
         # process may still open (RLIMIT_NOFILE at the OS boundary)
         yield Case(m, PF_DIALOGUE, prelude=PF_FOREIGN, ports=[12300, 12301]), m == 'pf-openbsd'
-        yield Case(m, PF_DIALOGUE, ports=[12300, 12301], pfinit=dict(en=True)), False
+        if m != 'pf-darwin':
+            # (Darwin: a pf that is enabled before the session is modelled as held by another tool's `pfctl -E`
+            # reference - the cases above.  What `pfctl -X` of the last reference does to a pf that was switched on with
+            # a plain `-e` is not said by the manual pages the pf fake was written from, and is not judged.)
+            yield Case(m, PF_DIALOGUE, ports=[12300, 12301], pfinit=dict(en=True)), False
         yield Case(m, [l for l in PF_DIALOGUE if not l.startswith('10,')], ports=[12300, 12301]), False
         n, budget = (1100, 1000) if ctx.thorough else (60, 40)
         q = ['QUERY_PF_NAT 2,6,10.0.0.%d,%d,127.0.0.1,12301\n' % (i % 250 + 1, 40000 + i) for i in range(n)]
